@@ -18,7 +18,7 @@ REF_WEIGHTS = collections.OrderedDict([
   ('invalid', 1),
   # kinds of this module
   ('refupd', 14), ('refswitch', 4), ('unlink', 2), ('rmrecs_many', 3), ('refadd', 6),
-  ('dupupd', 0), ('replacedata', 0), ('bothsides', 0), ('metarm', 1), ('rmreferenced', 9), ('addrefformula', 5),
+  ('dupupd', 0), ('replacedata', 0), ('bothsides', 0), ('metarm', 1), ('rmreferenced', 9), ('addrefformula', 5), ('metareflist', 3), ('rmdepcol', 3),
 ])
 
 
@@ -59,6 +59,11 @@ class RefGen(histgen.HistGen):
       return r.choice([None, ['L']])
     if x < 0.19:
       return r.choice([['L', 99], 'zz', ['L', rows[0], rows[0]], '[%d]' % rows[0]])
+    if x < 0.34:
+      # the same target more than once: adjacent, non-adjacent, all equal (a RefList is stored as given)
+      a = r.choice(rows)
+      b = r.choice(rows)
+      return ['L'] + r.choice([[a, a], [a, a, a], [a, b, a], [a, a, b], [b, a, a], [a, b, b, a]])
     k = r.randint(1, min(3, len(rows)))
     return ['L'] + r.sample(rows, k)
 
@@ -204,6 +209,39 @@ class RefGen(histgen.HistGen):
       if len(meta.user_tables()) >= 2:
         return ['BulkRemoveRecord', '_grist_Tables', [t['id']]]
       return None
+    if kind == 'metareflist':
+      # a metadata RefList (_grist_Tables_column.recalcDeps, sometimes .rules) holding a column ref more than once;
+      # RemoveColumn / removal of the column records then has to take every copy out
+      t = self.pick_table(meta)
+      if t is None:
+        return None
+      cols = meta.visible_cols(t['id'])
+      if len(cols) < 2:
+        return None
+      owner = r.choice(cols)
+      others = [c for c in cols if c['id'] != owner['id']]
+      a = r.choice(others)['id']
+      b = r.choice(others)['id']
+      val = ['L'] + r.choice([[a, a], [a, a, a], [a, b, a], [b, a, a], [a, b, b, a]])
+      field = 'recalcDeps' if r.random() < 0.8 else 'rules'
+      return ['UpdateRecord', '_grist_Tables_column', owner['id'], {field: val}]
+    if kind == 'rmdepcol':
+      # remove a column that a metadata RefList mentions (possibly more than once)
+      rep = G.actions.get_action_repr(meta.e.fetch_table('_grist_Tables_column'))
+      mentioned = set()
+      for field in ('recalcDeps', 'rules'):
+        for v in rep[3][field]:
+          if isinstance(v, list):
+            mentioned.update(x for x in v[1:] if isinstance(x, int))
+      cands = [c for c in meta.cols.values() if c['id'] in mentioned and not c['colId'].startswith('gristHelper_')
+               and c['colId'] != 'manualSort' and c['parentId'] in meta.tables
+               and not meta.tables[c['parentId']]['summarySourceTable']]
+      if not cands:
+        return None
+      c = r.choice(cands)
+      if r.random() < 0.5:
+        return ['RemoveColumn', meta.tables[c['parentId']]['tableId'], c['colId']]
+      return ['BulkRemoveRecord', '_grist_Tables_column', [c['id']]]
     if kind == 'addrefformula':
       # a DATA Ref/RefList column that also carries a formula: a default formula (recalcWhen DEFAULT, no deps) or a
       # trigger formula (DEFAULT with recalcDeps / NEVER / MANUAL_UPDATES); its cells are stored like any data cell
